@@ -167,7 +167,7 @@ func ruleNoWritesFrom(c *Ctx, cat *SQLCat, r *Report, rule string, roots []*ssa.
 		for f := range reach {
 			for _, ci := range callsOf(f) {
 				n := calleeName(ci.Common())
-				if n == "database/sql.(*DB).BeginTx" || n == "database/sql.(*DB).Begin" || strings.HasPrefix(n, "database/sql.(*Tx).") {
+				if n == "database/sql.DB.BeginTx" || n == "database/sql.DB.Begin" || strings.HasPrefix(n, "database/sql.Tx.") {
 					probs = append(probs, fmt.Sprintf("%s called in %s @ %s via %s", n, fname(f), c.ipos(ci), joinNames(c.pathTo(root, f))))
 				}
 				// a handler calling a function that takes *sql.Tx would need one
@@ -199,7 +199,22 @@ func ruleTableWriters(c *Ctx, cat *SQLCat, r *Report, rule, table string, allowe
 		key := fmt.Sprintf("%s %s %s %s", table, fname(st.Fn), st.Verb, st.Conflict)
 		okk := false
 		for _, a := range allowed {
-			if a.Fn == fname(st.Fn) && a.Verb == st.Verb && a.Conflict == st.Conflict {
+			if a.Verb != st.Verb || a.Conflict != st.Conflict {
+				continue
+			}
+			own := false
+			for _, alt := range strings.Split(a.Fn, "|") { // alternatives: a private helper and the function it may be inlined into
+				if alt == fname(st.Fn) {
+					own = true
+				}
+				if !own && isNewHelper(st.Fn) {
+					// a helper split off from the allowed writer, callable only from it
+					if af := c.fnOpt(alt); af != nil && c.onlyCalledFromFamily(st.Fn, af) {
+						own = true
+					}
+				}
+			}
+			if own {
 				okk = true
 				found[a.Fn+a.Verb] = true
 			}
@@ -254,6 +269,10 @@ func ruleTxConfinement(c *Ctx, r *Report, rule string) {
 					if a, ok := x.Addr.(*ssa.Alloc); ok && !a.Heap {
 						return
 					}
+					// a variable captured by closures that do not escape is still local to the call
+					if a, ok := x.Addr.(*ssa.Alloc); ok && a.Heap && onlyCapturedByLocalClosures(a) {
+						return
+					}
 					// heap alloc captured by closure or field/global store
 					r.viol(rule, fmt.Sprintf("%s stores *sql.Tx", fname(f)), c.ipos(ins), "a *sql.Tx is stored to memory that may outlive the call ("+x.Addr.String()+"): another goroutine could use the block's transaction")
 				}
@@ -275,15 +294,21 @@ func ruleTxConfinement(c *Ctx, r *Report, rule string) {
 				for _, b := range x.Bindings {
 					t := b.Type()
 					if p, ok := t.(*types.Pointer); ok && isSQLTxPtr(p.Elem()) || isSQLTxPtr(t) {
-						r.viol(rule, fmt.Sprintf("%s closure captures *sql.Tx", fname(f)), c.ipos(ins), "")
+						if why := closureEscapes(x); why != "" {
+							r.viol(rule, fmt.Sprintf("%s closure captures *sql.Tx", fname(f)), c.ipos(ins), "the closure "+why+": the block's transaction can be used after, or concurrently with, the call that owns it")
+						} else {
+							r.okNT(rule, fmt.Sprintf("%s closure captures *sql.Tx", fname(f)), c.ipos(ins), "the closure is only called (or deferred) inside the function that created it")
+						}
 					}
 				}
 			case ssa.CallInstruction:
 				nm := calleeName(x.Common())
-				if nm == "database/sql.(*Tx).Commit" || nm == "database/sql.(*Tx).Rollback" || nm == "database/sql.(*DB).BeginTx" || nm == "database/sql.(*DB).Begin" {
+				if nm == "database/sql.Tx.Commit" || nm == "database/sql.Tx.Rollback" || nm == "database/sql.DB.BeginTx" || nm == "database/sql.DB.Begin" {
 					n++
 					if f == c.Sync {
 						r.ok(rule, fmt.Sprintf("%s calls %s", fname(f), nm), c.ipos(ins), "transaction control in the sync root")
+					} else if c.onlyCalledFromFamily(f, c.Sync) {
+						r.ok(rule, fmt.Sprintf("%s calls %s", fname(f), nm), c.ipos(ins), "transaction control in a helper that only the sync root calls (its use is judged by the typestate rule)")
 					} else {
 						r.viol(rule, fmt.Sprintf("%s calls %s", fname(f), nm), c.ipos(ins), "transaction control outside the sync root: a block's transaction could be committed or rolled back elsewhere")
 					}
@@ -305,4 +330,108 @@ func ruleTxConfinement(c *Ctx, r *Report, rule string) {
 		return k
 	}()
 	_ = n
+}
+
+// closureEscapes: "" when the closure value is only called or deferred in the creating function, possibly after being
+// kept in a local slice/array/variable; otherwise what lets it out.
+func closureEscapes(mc *ssa.MakeClosure) string {
+	seen := map[ssa.Value]bool{}
+	var walk func(v ssa.Value, depth int) string
+	walk = func(v ssa.Value, depth int) string {
+		if seen[v] || depth > 8 {
+			return ""
+		}
+		seen[v] = true
+		refs := v.Referrers()
+		if refs == nil {
+			return ""
+		}
+		for _, rf := range *refs {
+			switch y := rf.(type) {
+			case *ssa.Call:
+				if y.Call.Value == v {
+					continue // called
+				}
+				if b, ok := y.Call.Value.(*ssa.Builtin); ok {
+					switch b.Name() {
+					case "len", "cap":
+						continue
+					case "append":
+						if w := walk(y, depth+1); w != "" {
+							return w
+						}
+						continue
+					}
+				}
+				return "is passed to " + calleeName(y.Common())
+			case *ssa.Defer:
+				if y.Call.Value == v {
+					continue
+				}
+				return "is passed to a deferred call"
+			case *ssa.Go:
+				return "is started as a goroutine"
+			case *ssa.Return:
+				return "is returned"
+			case *ssa.Send:
+				return "is sent on a channel"
+			case *ssa.MapUpdate:
+				return "is stored in a map"
+			case *ssa.Store:
+				if y.Val != v {
+					continue // v is the address being stored to
+				}
+				root := y.Addr
+				for {
+					switch z := root.(type) {
+					case *ssa.IndexAddr:
+						root = z.X
+						continue
+					case *ssa.FieldAddr:
+						root = z.X
+						continue
+					}
+					break
+				}
+				a, ok := root.(*ssa.Alloc)
+				if !ok {
+					return "is stored outside the function's locals"
+				}
+				if w := walk(a, depth+1); w != "" {
+					return w
+				}
+			case *ssa.IndexAddr, *ssa.FieldAddr, *ssa.Slice, *ssa.UnOp, *ssa.Range, *ssa.Next, *ssa.Extract, *ssa.Phi, *ssa.Index, *ssa.ChangeType:
+				if w := walk(y.(ssa.Value), depth+1); w != "" {
+					return w
+				}
+			case *ssa.MakeInterface:
+				return "is converted to an interface"
+			case *ssa.DebugRef:
+			case *ssa.MakeClosure:
+				return "is captured by another closure"
+			}
+		}
+		return ""
+	}
+	return walk(mc, 0)
+}
+
+// onlyCapturedByLocalClosures: every use of the (heap) local is a load, a store, or a capture by a closure that
+// does not escape.
+func onlyCapturedByLocalClosures(a *ssa.Alloc) bool {
+	if a.Referrers() == nil {
+		return true
+	}
+	for _, rf := range *a.Referrers() {
+		switch y := rf.(type) {
+		case *ssa.Store, *ssa.UnOp, *ssa.DebugRef:
+		case *ssa.MakeClosure:
+			if closureEscapes(y) != "" {
+				return false
+			}
+		default:
+			return false
+		}
+	}
+	return true
 }
